@@ -731,6 +731,10 @@ fn c03(ix: &Ix, f: &mut Findings) {
         if let Some((_, msg)) = &o.panicked {
             let scripted_unwind = msg.starts_with("scripted");
             let deadlock_in_hook = msg.contains("Deadlock detected") && matches!(o.ctx, Ctx::Hook(..));
+            if msg.contains("Deadlock detected") && !matches!(o.ctx, Ctx::Hook(..)) {
+                // only asks made from inside an actor's hooks are ever tracked: a caller that is not an actor cannot be "in a cycle"
+                f.v("C15.sound", Some(o.actor), format!("[non-actor-tracked] {:?} uid {} issued by {:?} - not an actor - panicked with a deadlock report: {msg:?}", o.kind, o.uid, o.ctx));
+            }
             if !scripted_unwind && !deadlock_in_hook {
                 let clause = if o.kind.has_timeout() { "C10.returns" } else if o.kind == OpKind::Kill { "C06.nonblocking" } else { "C03.returns" };
                 f.v(clause, Some(o.actor), format!("{:?} uid {} (issued by {:?}) panicked in its caller instead of returning a result: {msg:?}", o.kind, o.uid, o.ctx));
